@@ -42,7 +42,7 @@ ASSUMPTIONS = ["'BitTorrent-shaped' and 'IPv8-shaped' are read from the property
                "once the outside socket is open, data cells from other IPs that carry the right keys are not restricted by the "
                "statement (only the *opening* is)"]
 REACH = ["emitted_allowed", "blocked_forbidden_outbound", "blocked_forbidden_inbound", "inbound_tunnelled_allowed",
-         "null_destination_dropped", "domain_resolved", "domain_failed", "ipv6_emitted", "colluder_refused", "queued_before_open", "null_destination_as_host_name", "reentry_through_own_circuit", "lookalike_twins_back_to_back", "previous_hop_known_under_another_address", "outside_socket_open_failed", "colluder_refused_after_failed_open",
+         "null_destination_dropped", "domain_resolved", "domain_failed", "ipv6_emitted", "colluder_refused", "queued_before_open", "null_destination_as_host_name", "reentry_through_own_circuit", "lookalike_twins_back_to_back", "previous_hop_known_under_another_address", "outside_socket_open_failed", "colluder_refused_after_failed_open", "exit_flags_changed_at_run_time", "circuit_idle_for_more_than_unstable_timeout",
          "flagset:0", "flagset:bt", "flagset:ipv8", "flagset:bt+ipv8"]
 
 BT, IPV8F, RELAY, SPEED = 2, 4, 1, 8
@@ -131,12 +131,24 @@ def cases(tier: str, base_seed: int):  # noqa: ANN201
             n += 1
             yield {"seed": base_seed + n, "knobs": {}, "flagset": fs, "relay": True, "hops": hops, "plan": {"mode": "grid"},
                    "open_fails": 1 + (fs + hops) % 2}
+    for fs in (1, 2, 3):
+        for new_fs in range(4):
+            if new_fs != fs:
+                n += 1
+                yield {"seed": base_seed + n, "knobs": {}, "flagset": fs, "relay": True, "hops": 1 + (fs + new_fs) % 2,
+                       "plan": {"mode": "sample", "n": 20}, "reflag": new_fs}
+    for fs in (1, 3):
+        for hops in (1, 2):
+            n += 1
+            yield {"seed": base_seed + n, "knobs": {}, "flagset": fs, "relay": True, "hops": hops, "plan": {"mode": "sample", "n": 20},
+                   "idle_first": True}
     for i in itertools.count():
         seed = base_seed + 5000 + i
         rng = random.Random(f"c06/{seed}")
         yield {"seed": seed, "flagset": rng.randrange(4), "relay": rng.random() < 0.7, "hops": rng.choice([1, 2]),
                "knobs": {"lat_jit": rng.choice([0.0, 0.02]), "dup": rng.choice([0.0, 0.05]), "dns_latency": (0.001, rng.choice([0.05, 3.0]))},
-               "plan": {"mode": "sample", "n": rng.choice([50, 200, 600])}, "open_fails": rng.choice([0, 0, 0, 0, 1, 2])}
+               "plan": {"mode": "sample", "n": rng.choice([50, 200, 600])}, "open_fails": rng.choice([0, 0, 0, 0, 1, 2]),
+               "reflag": rng.choice([None, None, None, 0, 1, 2, 3]), "idle_first": rng.random() < 0.1}
 
 
 def execute(case: dict) -> dict:  # noqa: C901, PLR0915
@@ -256,6 +268,16 @@ def execute(case: dict) -> dict:  # noqa: C901, PLR0915
         st["canaries_pre"] = [b"d" + b"7:nullhst" + b"e", b"\x00\x02" + b"\x66" * 30]
         dests = [UDPv4Address("9.9.9.9", 7000), UDPv6Address("2001:db8::9", 7000), DomainAddress("tracker.example", 7000),
                  DomainAddress("nowhere.example", 7000), ("0.0.0.0", 0)]
+        if case.get("idle_first"):
+            # the circuit stays idle (keep-alive pings only) for longer than the exit's unstable_timeout (60 s) before anything is sent:
+            # no timer may open the outside socket either
+            await asyncio.sleep(66.0)
+            world.probe("circuit_idle_for_more_than_unstable_timeout")
+            es_i = next(iter(x.ov.exit_sockets.values()), None)
+            opened_i = [t for t in net.all_transports if t.owner == x.name and t.port != x.port and not t.closed]
+            if (es_i is not None and es_i.enabled) or opened_i:
+                c.violate("open_only_by_previous_hop", "outside_socket_opened_without_data",
+                          f"exit socket enabled={es_i.enabled if es_i else None}, transports={len(opened_i)} after 66 s without any data on the circuit")
         # --- colluder first: the outside socket must not be opened by data from a foreign IP
         exit_cid = circ.circuit_id
         if hops == 2:
@@ -375,6 +397,26 @@ def execute(case: dict) -> dict:  # noqa: C901, PLR0915
                 else:
                     net.inject(("9.9.9.9", 7000), t.addr, p, delay=0.001 + k * 1e-5, label="outside")
         await asyncio.sleep(3.0)
+        if case.get("reflag") is not None:
+            # the operator changes the node's exit flags at run time (settings.peer_flags = ...): the circuit joined earlier is
+            # filtered by the flags in force when a packet passes, in both directions
+            new_fs = set(FLAGSETS[case["reflag"]])
+            x.ov.settings.peer_flags = set(new_fs) | ({RELAY} if case["relay"] else set()) | {SPEED}
+            st["reflag_t"] = world.loop.time()
+            st["reflag_fs"] = new_fs
+            world.probe("exit_flags_changed_at_run_time")
+            await asyncio.sleep(0.1)
+            for p in [*st["canaries"], *[pp for pair in st["twins"] for pp in pair]]:
+                o.call(o.ov.send_data, circ.hop.address, circ.circuit_id, dests[0], ("0.0.0.0", 0), p)
+            await asyncio.sleep(1.0)
+            k = 0
+            for t in outs:
+                if t.closed or t.family == 10 or ":" in str(t.addr[0]):
+                    continue
+                for p in [*st["canaries"], *[pp for pair in st["twins"] for pp in pair]]:
+                    k += 1
+                    net.inject(("9.9.9.9", 7000), t.addr, p, delay=0.001 + k * 1e-5, label="outside")
+            await asyncio.sleep(2.0)
 
     try:
         world.run(main())
@@ -398,7 +440,12 @@ def execute(case: dict) -> dict:  # noqa: C901, PLR0915
                 sent_out.add(d)
                 if pkt.dst[0] == "0.0.0.0" and pkt.dst[1] == 0:       # (the statement names exactly this address)
                     c.violate("no_null_destination", "emitted_to_null_destination", f"exit emitted {len(d)} bytes to {pkt.dst}")
-                if not allowed(fs, d, own):
+                fs_now = st["reflag_fs"] if st.get("reflag_t") is not None and pkt.t >= st["reflag_t"] else fs
+                if fs_now is not fs and not allowed(fs_now, d, own):
+                    c.violate("outbound_policy", f"forbidden_payload_emitted_after_flags_changed:bt={is_bt(d)},ipv8={is_ipv8(d)}",
+                              f"exit whose flags were changed from {sorted(fs)} to {sorted(fs_now)} emitted {d[:24].hex()} (len {len(d)}) "
+                              f"{pkt.t - st['reflag_t']:.2f} s after the change")
+                elif fs_now is fs and not allowed(fs, d, own):
                     c.violate("outbound_policy", f"forbidden_payload_emitted:bt={is_bt(d)},ipv8={is_ipv8(d)}",
                               f"exit with flags {sorted(fs)} emitted {d[:24].hex()} (len {len(d)}) to {pkt.dst}")
                 else:
@@ -412,6 +459,13 @@ def execute(case: dict) -> dict:  # noqa: C901, PLR0915
             if pkt.src_node == x.name and pkt.label == "DataPayload" and pkt.cause in inbound:
                 src = inbound[pkt.cause]
                 d = src.data
+                fs_in = st["reflag_fs"] if st.get("reflag_t") is not None and src.t >= st["reflag_t"] else fs
+                if fs_in is not fs:
+                    if not allowed(fs_in, d, own):
+                        c.violate("inbound_policy", f"forbidden_payload_tunnelled_back_after_flags_changed:bt={is_bt(d)},ipv8={is_ipv8(d)}",
+                                  f"exit whose flags were changed from {sorted(fs)} to {sorted(fs_in)} sent a data cell into the tunnel for "
+                                  f"outside datagram {d[:24].hex()} (len {len(d)})")
+                    continue
                 if not allowed(fs, d, own):
                     c.violate("inbound_policy", f"forbidden_payload_tunnelled_back:bt={is_bt(d)},ipv8={is_ipv8(d)}",
                               f"exit with flags {sorted(fs)} sent a data cell into the tunnel for outside datagram "
